@@ -18,6 +18,13 @@ def session(ctx, sid):
             s.repeat(t) if rng.random() < 0.5 else s.again(t, rng)
             continue
         if rng.random() < 0.03:
+            # a transceiver tuned to 0 kHz on one side is tuned (readiness decides POWERON)
+            z = rng.choice(["RXTUNE", "TXTUNE"])
+            o = "TXTUNE" if z == "RXTUNE" else "RXTUNE"
+            for c in ("CMD POWERON", "CMD POWEROFF", "CMD %s 0" % z, "CMD %s %d" % (o, rng.choice(FC.FREQS)), "CMD POWERON"):
+                s.cmd(t, c)
+            continue
+        if rng.random() < 0.03:
             # the same hopping configuration again after a power cycle has forgotten it
             k = rng.randint(1, 3)
             x = "CMD SETFH %d %d %s" % (rng.randrange(64), rng.randrange(8), " ".join(str(rng.choice(FC.FREQS)) for _ in range(2 * k)))
